@@ -356,13 +356,27 @@ func (r *Run) assertLabel(c *Term, label string) {
 		return
 	}
 	if c.IsConst() {
+		// the assertion is false outright: it is a violation iff the path is
+		// feasible. (A path can get here although it is infeasible when an
+		// earlier feasibility query timed out and the branch was kept.)
 		r.flush()
 		var vec []uint64
-		if r.sol.CheckSat() == Sat {
+		res := r.sol.CheckSat()
+		if res == Sat {
 			vec, _ = r.model()
+		} else if res == Unknown {
+			res, vec = r.secondOpinion(nil)
 		}
-		r.addFinding("assert", label, "assertion is false on this path", vec)
-		r.events = append(r.events, Event{Kind: "fail", Label: label})
+		switch res {
+		case Unsat:
+			panic(pathEnd{"infeasible"})
+		case Sat:
+			r.addFinding("assert", label, "assertion is false on this path", vec)
+			r.events = append(r.events, Event{Kind: "fail", Label: label})
+		default:
+			r.unknowns++
+			r.addFinding("unknown", label, "assertion is false on a path whose feasibility neither solver decides", nil)
+		}
 		return
 	}
 	r.flush()
@@ -376,8 +390,14 @@ func (r *Run) assertLabel(c *Term, label string) {
 	} else {
 		r.sol.Pop()
 		if res == Unknown {
-			r.unknowns++
-			r.addFinding("unknown", label, "solver returned unknown for assertion", nil)
+			switch res2, vec := r.secondOpinion(r.ts.Not(c)); res2 {
+			case Unsat:
+			case Sat:
+				r.addFinding("assert", label, "assertion can fail", vec)
+			default:
+				r.unknowns++
+				r.addFinding("unknown", label, "both solvers returned unknown for assertion", nil)
+			}
 		}
 	}
 	if r.feasible(c) == Unsat {
